@@ -70,6 +70,13 @@ class C31(C30):
             {'k2': 'sprite', 'video': 'ega', 'screen': 7, 'view': None, 'x0': 10, 'y0': 10, 'w': 9, 'h': 4, 'seed': 5,
              'pcopy': True},
             {'k2': 'point', 'video': 'ega', 'screen': 7, 'view': None, 'bg': 3, 'x': 20, 'y': 20, 'pcopy': True},
+            # seeded C31e: GET, PUT, change one pixel of the bottom row, GET into the same array, PUT again
+            {'k2': 'sprite', 'video': 'vga', 'screen': 7, 'view': None, 'x0': 8, 'y0': 100, 'w': 6, 'h': 1, 'seed': 6,
+             'rounds': 3},
+            {'k2': 'sprite', 'video': 'ega', 'screen': 9, 'view': None, 'x0': 40, 'y0': 60, 'w': 20, 'h': 5, 'seed': 7,
+             'rounds': 3},
+            {'k2': 'sprite', 'video': 'cga', 'screen': 1, 'view': None, 'x0': 4, 'y0': 6, 'w': 7, 'h': 2, 'seed': 8,
+             'rounds': 2},
             # D31a: POINT with a viewport-relative VIEW and x + view_x0 beyond the screen raised IndexError
             {'k2': 'point', 'video': 'cga', 'screen': 1, 'view': [100, 100, 200, 150, False], 'bg': 2, 'x': 300,
              'y': 10},
@@ -139,7 +146,7 @@ class C31(C30):
                 key = 'geometry ' + kind
             elif r < 0.88:
                 sw = rng.choice([1, 2, 3, 4, 7, 8, 9, 15, 16, 17, 31, 33, rng.randint(1, 60)])
-                sh = rng.choice([1, 2, 3, 5, 8, rng.randint(1, 20)])
+                sh = rng.choice([1, 1, 2, 3, 5, 8, rng.randint(1, 20)])
                 bw, bh = vr[2] - vr[0] + 1, vr[3] - vr[1] + 1
                 sw, sh = min(sw, bw), min(sh, bh)
                 eff = sw
@@ -154,6 +161,7 @@ class C31(C30):
                         'w': sw, 'h': sh, 'seed': rng.randrange(1 << 30)}
                 if rng.random() < 0.4:
                     case['pcopy'] = True
+                case['rounds'] = rng.choice([0, 1, 1, 2, 3])
                 key = 'sprite'
             else:
                 case = {'k2': 'point', 'video': video, 'screen': screen, 'view': view,
@@ -280,6 +288,29 @@ class C31(C30):
         info['xor_twice_same'] = (G.snapshot(s) == before)
         info['xor_changed'] = (mid != before)
         info['err_end'] = s._impl.interpreter.error_num
+        # a second round with the SAME array (C31e): change a little (mostly the right end of the bottom row, in
+        # the high colour planes: the last bytes of the record), GET again, PUT PSET again - the screen must not
+        # change, and a wiped rectangle must come back as it was at the second GET
+        rounds = []
+        for rnd in range(case.get('rounds', 0)):
+            s._impl.interpreter.error_num = 0
+            cur = G.snapshot(s)[ap]
+            for _ in range(r2.choice([1, 1, 2])):
+                if r2.random() < 0.7:
+                    mx, my = x1 - r2.randrange(min(8, x1 - x0 + 1)), y1
+                else:
+                    mx, my = r2.randint(x0, x1), r2.randint(y0, y1)
+                old = cur[(my + oy) * pw + (mx + ox)]
+                new = old ^ r2.choice([na >> 1, na >> 1, na - 1, 1])
+                ex('PSET (%d,%d),%d' % (mx, my, new % na))
+            b2 = G.snapshot(s)
+            ex('GET (%d,%d)-(%d,%d),A%%' % (x0, y0, x0 + sw - 1, y1))
+            ex('PUT (%d,%d),A%%,PSET' % (x0, y0))
+            same = (G.snapshot(s) == b2)
+            ex('LINE (%d,%d)-(%d,%d),0,BF' % (x0, y0, x1, y1))
+            ex('PUT (%d,%d),A%%,PSET' % (x0, y0))
+            rounds.append([same, G.snapshot(s) == b2, s._impl.interpreter.error_num])
+        info['rounds'] = rounds
         return info
 
     def impl(self, case):
@@ -369,6 +400,14 @@ class C31(C30):
                 return 'PUT,PSET after wiping the rectangle did not restore it'
             if not info['xor_twice_same']:
                 return 'PUT XOR applied twice did not restore the screen'
+            for i, (same, restored, e) in enumerate(info.get('rounds', [])):
+                if e:
+                    return 'GET/PUT of the same array again (round %d) raised error %d' % (i + 2, e)
+                if not same:
+                    return ('after changing pixels of the rectangle: GET into the same array then PUT,PSET at the same '
+                            'place changed the screen (round %d)' % (i + 2))
+                if not restored:
+                    return 'round %d: PUT,PSET after wiping the rectangle did not bring back what the last GET read' % (i + 2)
             return None
         # geometry: first the C30 reading (nothing outside the viewport / on other pages) ...
         why = C30.oracle(self, case, out)
